@@ -28,6 +28,7 @@ def main():
     repo = args[args.index("--repo") + 1]
     assert os.path.abspath(repo) != "/repo", "never patch /repo itself"
     only = args[args.index("--only") + 1].split(",") if "--only" in args else None
+    tier = args[args.index("--tier") + 1] if "--tier" in args else "quick"
     for rel in ("harness/Cargo.toml", "c09/Cargo.toml"):
         p = os.path.join(VERIF, rel)
         t = open(p).read()
@@ -50,7 +51,7 @@ def main():
             for p in ([sid[:3]] if "--own-only" in args else ALL):
                 t0 = time.time()
                 try:
-                    r = sh([os.path.join(VERIF, "check"), p, "--tier", "quick", "--seed", "9"], cwd=VERIF, env=env, timeout=1800)
+                    r = sh([os.path.join(VERIF, "check"), p, "--tier", tier, "--seed", "9"], cwd=VERIF, env=env, timeout=7200 if tier == "thorough" else 1800)
                     code = r.returncode
                 except subprocess.TimeoutExpired:
                     code = 2
